@@ -320,10 +320,10 @@ struct FfiRes {
 }
 
 thread_local! {
-    /// the most recent non-empty output buffer the FFI handed out on this thread (address, length,
+    /// the most recent non-empty output buffers the FFI handed out on this thread (address, length,
     /// bytes at that time): the FFI passes ownership of its output to the caller, so a later call
     /// must not change what an earlier buffer designates
-    static PREV_OUT: std::cell::RefCell<Option<(usize, usize, Vec<u8>)>> = const { std::cell::RefCell::new(None) };
+    static PREV_OUT: std::cell::RefCell<std::collections::VecDeque<(usize, usize, Vec<u8>)>> = const { std::cell::RefCell::new(std::collections::VecDeque::new()) };
     static PREV_OUT_BROKEN: std::cell::RefCell<Option<String>> = const { std::cell::RefCell::new(None) };
 }
 
@@ -332,10 +332,11 @@ fn with_out(g: impl FnOnce(*mut Buffer) -> bool) -> FfiRes {
     let flag = g(&mut ob as *mut Buffer);
     // an earlier output must still read the same after this call
     PREV_OUT.with(|p| {
-        if let Some((addr, len, bytes)) = p.borrow().as_ref() {
+        for (addr, len, bytes) in p.borrow().iter() {
             let now = unsafe { std::slice::from_raw_parts(*addr as *const u8, *len) };
             if now != &bytes[..] {
                 PREV_OUT_BROKEN.with(|b| *b.borrow_mut() = Some(format!("an output buffer handed out by an earlier FFI call ({} bytes at {:#x}) reads differently after this call", len, addr)));
+                break;
             }
         }
     });
@@ -347,7 +348,14 @@ fn with_out(g: impl FnOnce(*mut Buffer) -> bool) -> FfiRes {
         // pointer and length must designate readable bytes
         let bytes = if ob.len == 0 { vec![] } else { unsafe { std::slice::from_raw_parts(ob.ptr, ob.len) }.to_vec() };
         if ob.len > 0 {
-            PREV_OUT.with(|p| *p.borrow_mut() = Some((ob.ptr as usize, ob.len, bytes.clone())));
+            // the last 48 outputs of this thread are remembered (one state observation alone produces a dozen)
+            PREV_OUT.with(|p| {
+                let mut q = p.borrow_mut();
+                if q.len() >= 48 {
+                    q.pop_front();
+                }
+                q.push_back((ob.ptr as usize, ob.len, bytes.clone()));
+            });
         }
         FfiRes { flag, out: Out::Bytes(bytes), untouched }
     } else {
@@ -772,7 +780,7 @@ fn run_case(case: &Case, base: &std::path::Path, o: &mut Outcome) {
         vfail!(o, "ffi::new({depth}, {{}}) reported {flag} (context {:?}) although RLN::new succeeds", a);
         return;
     }
-    PREV_OUT.with(|p| *p.borrow_mut() = None);
+    PREV_OUT.with(|p| p.borrow_mut().clear());
     PREV_OUT_BROKEN.with(|b| *b.borrow_mut() = None);
     let mut pair = Pair { a, b: Some(b), depth, last: None };
     let mut failed_then_ok = false;
